@@ -214,9 +214,57 @@ func scrubbedOnly(p *Prog, v ssa.Value, depth int) string {
 				}
 			}
 		}
+	case *ssa.Convert:
+		// string <-> []byte (and constant runes): same text
+		if isStringLike(x.Type()) || isByteSlice(x.Type()) {
+			return scrubbedOnly(p, x.X, depth+1)
+		}
+	case *ssa.Slice:
+		// buf[:0]: empty, whatever the storage held
+		if x.High != nil {
+			if k, ok := intConst(x.High); ok && k == 0 {
+				return ""
+			}
+		}
+		// a literal []byte{a, b}: its elements
+		if al, ok := x.X.(*ssa.Alloc); ok {
+			for _, r := range *al.Referrers() {
+				switch y := r.(type) {
+				case *ssa.Slice:
+					if y != x {
+						return "a locally built byte array at " + p.Pos(al.Pos())
+					}
+				case *ssa.IndexAddr:
+					for _, rr := range *y.Referrers() {
+						st, isSt := rr.(*ssa.Store)
+						if !isSt || st.Addr != ssa.Value(y) {
+							return "a locally built byte array at " + p.Pos(al.Pos())
+						}
+						if b := scrubbedOnly(p, st.Val, depth+1); b != "" {
+							return b
+						}
+					}
+				default:
+					return "a locally built byte array at " + p.Pos(al.Pos())
+				}
+			}
+			return ""
+		}
+	case *ssa.MakeSlice:
+		if k, ok := intConst(x.Len); ok && k == 0 {
+			return ""
+		}
 	case *ssa.Call:
 		cm := x.Common()
 		id := p.CalleeID(cm)
+		if id == "builtin:append" {
+			for _, a := range cm.Args {
+				if b := scrubbedOnly(p, a, depth+1); b != "" {
+					return b
+				}
+			}
+			return ""
+		}
 		switch id {
 		case M("$M/common/log.ElideError"), M("$M/common/log.ElideAddr"):
 			return ""
@@ -240,6 +288,9 @@ func scrubbedOnly(p *Prog, v ssa.Value, depth int) string {
 
 // portOnly: constants and result #1 (port) of net.SplitHostPort.
 func portOnly(p *Prog, v ssa.Value, depth int) string {
+	if depth > 20 {
+		return "an expression too deep to analyse"
+	}
 	v = unspill(v)
 	switch x := v.(type) {
 	case *ssa.Const:
@@ -258,6 +309,57 @@ func portOnly(p *Prog, v ssa.Value, depth int) string {
 			}
 		}
 		return ""
+	case *ssa.Convert:
+		// string <-> []byte (and constant runes): same text
+		if isStringLike(x.Type()) || isByteSlice(x.Type()) {
+			return portOnly(p, x.X, depth+1)
+		}
+	case *ssa.Slice:
+		// buf[:0]: empty, whatever the storage held
+		if x.High != nil {
+			if k, ok := intConst(x.High); ok && k == 0 {
+				return ""
+			}
+		}
+		// a literal []byte{a, b}: its elements
+		if al, ok := x.X.(*ssa.Alloc); ok {
+			for _, r := range *al.Referrers() {
+				switch y := r.(type) {
+				case *ssa.Slice:
+					if y != x {
+						return "a locally built byte array at " + p.Pos(al.Pos())
+					}
+				case *ssa.IndexAddr:
+					for _, rr := range *y.Referrers() {
+						st, isSt := rr.(*ssa.Store)
+						if !isSt || st.Addr != ssa.Value(y) {
+							return "a locally built byte array at " + p.Pos(al.Pos())
+						}
+						if b := portOnly(p, st.Val, depth+1); b != "" {
+							return b
+						}
+					}
+				default:
+					return "a locally built byte array at " + p.Pos(al.Pos())
+				}
+			}
+			return ""
+		}
+	case *ssa.MakeSlice:
+		if k, ok := intConst(x.Len); ok && k == 0 {
+			return ""
+		}
+	case *ssa.Call:
+		cm := x.Common()
+		id := p.CalleeID(cm)
+		if id == "builtin:append" {
+			for _, a := range cm.Args {
+				if b := portOnly(p, a, depth+1); b != "" {
+					return b
+				}
+			}
+			return ""
+		}
 	case *ssa.Extract:
 		if call, ok := x.Tuple.(*ssa.Call); ok && p.CalleeID(call.Common()) == "net.SplitHostPort" {
 			if x.Index == 1 {
